@@ -281,6 +281,49 @@ def command_faults(start, steps, rows, stats, add7, add17):
                     {'statement': sk[0]})
 
 
+def atomic_caller_faults(start, steps, rows, stats, add7):
+    """The upgrade is called from inside the caller's own
+    transaction.atomic() block, the caller catches the failure inside the
+    block and lets the block commit: nothing of the failed evolution may
+    be in the database afterwards."""
+    from django.db import transaction
+    pr = ProgramRun(start, steps, rows, False)
+    pr.extra = 'in-atomic'
+    MZ.install(pr.final)
+    B.restore(pr.base_image, 'default')
+    pre = EB.canonical_state()
+    run0 = pr.execute()
+    if not run0['res'].ok:
+        return
+    effects = run0['tracer'].effects()
+    stats['programs'] += 1
+    real = [ML.to_real(mj) for _l, mj in steps]
+    evos = [{'label': 'e1', 'mutations': real}] if real else []
+    for k in range(1, len(effects) + 1):
+        MZ.install(pr.final)
+        B.restore(pr.base_image, 'default')
+        B.reset_globals()
+        tracer = O.Tracer('default', fault_at=k,
+                          match=lambda q: not acceptor.is_bookkeeping(q))
+        res = None
+        try:
+            with transaction.atomic(using='default'):
+                res = D.d2('va', evos, tracer=tracer, abort=False)
+        except Exception as e:          # the block itself refused to commit
+            D._abort_transactions('default')
+        stats['runs'] += 1
+        stats['faulted_runs'] += 1
+        if res is not None and res.ok:
+            continue
+        D._abort_transactions('default')
+        post = EB.canonical_state()
+        if post != pre:
+            add7('C07|state-changed-after-failed-run|%s|%s|in-callers-'
+                 'atomic-block' % (diff_kind(pre, post),
+                                   stmt_shape(effects[k - 1][0])), pr, k,
+                 {'statement': effects[k - 1][0]})
+
+
 def stmt_shape(sql):
     s = sql.strip()
     up = s.upper()
@@ -341,6 +384,9 @@ def work(task):
                 if size < ent['size']:
                     ent.update(exemplar=replay, detail=detail, size=size)
         return add
+    if extra == 'in-atomic':
+        atomic_caller_faults(start, steps, rows, stats, adder(v7))
+        return name, stats, v7, v17
     if extra == 'command':
         command_faults(start, steps, rows, stats, adder(v7), adder(v17))
         return name, stats, v7, v17
@@ -392,6 +438,10 @@ def tasks_for(tier):
         add('narrow-d2', narrow, 2, 'lite', KINDS, (False,))
         add('two-model-d1', two, 1, 'full', None, (False,))
         tasks.append(('new-model-only', narrow, [], 'R2', True))
+        # called from inside the caller's own atomic block
+        for i, steps in enumerate(gen_programs(narrow, 1, 'lite', KINDS)):
+            tasks.append(('inatomic#%d' % i, narrow, steps, 'R2',
+                          'in-atomic'))
         # the same through the evolve command, bookkeeping faults included
         for i, steps in enumerate(gen_programs(narrow, 1, 'lite', KINDS)):
             tasks.append(('cmd#%d' % i, narrow, steps, 'R2', 'command'))
